@@ -165,7 +165,29 @@ def function_body(src, cls, name, where, nth=0):
     body = src[k + 1:e - 1]
     if "#" in re.sub(r'"(?:[^"\\]|\\.)*"', '""', body):
         fail(where, f"preprocessor directive inside {cls}::{name}")
+    hdr = src[s:k]
+    FUNCTION_PARAMS[(cls, name, nth)] = [re.sub(r"\[.*\]$", "", re.split(r"[\s\*&]+", q.strip())[-1])
+                                         for q in split_args(hdr[hdr.index("(") + 1:hdr.rindex(")")]) if q.strip() and q.strip() != "void"]
     return body, src.count("\n", 0, s) + 1
+
+
+FUNCTION_PARAMS = {}
+SHAPE_NOTES = []
+
+
+def split_args(s):
+    args, depth, cur = [], 0, ""
+    for ch in s:
+        if ch == "," and depth == 0:
+            args.append(cur.strip())
+            cur = ""
+        else:
+            depth += ch in "([<"
+            depth -= ch in ")]>"
+            cur += ch
+    if cur.strip():
+        args.append(cur.strip())
+    return args
 
 
 # ------------------------------------------------------------------------------------------------ statement tree
@@ -194,7 +216,7 @@ def parse_block(t, where):
                 if t[k] != "{":
                     fail(where, "switch without braces")
                 e = match_brace(t, k)
-                return ("switch", head, t[k + 1:e - 1]), e
+                return ("switch", head.strip(), [(labs, parse_block(txt, where)) for labs, txt in split_cases(t[k + 1:e - 1], where)]), e
             body, k = one(j)
             body = body[1] if body and body[0] == "block" else [body]
             if kw == "if":
@@ -287,6 +309,436 @@ def unquote(lit):
     return bytes(lit[1:-1], "utf-8").decode("unicode_escape")
 
 
+# ------------------------------------------------------------------------------------------------ structural normalisation
+# Facts are read from a CANONICAL form of each function, so that spelling does not matter:
+#   text level : `static const` integer constants of the file replaced by their values; `(*this).x` → `this->x`;
+#                `c.empty()` → `c.size() == 0`; a statement that calls a file-static helper is replaced by the helper's body with
+#                the arguments substituted for the parameters (one level)
+#   tree level : `const` dropped from local declarations; `const T& a = it->first` style aliases substituted; `++x` → `x++`;
+#                declarations split from their initialisers; an initialiser that is overwritten before the variable is read is
+#                dropped; a clamp `if (n < 0) n = 0;` of a local is dropped; parameters are renamed by position and EVERY local by
+#                its definition: `_<type code><running number>` in order of declaration (scope aware), indentation strings
+#                `indentK` by the `indent + K` bound of the loop that builds them
+TYPE_RX = (r"(?:std::(?:map|vector|set)\s*<[^;]*?>\s*::\s*(?:const_)?iterator|cxxNameDouble::(?:const_)?iterator|const_iterator|iterator|"
+           r"std::(?:map|vector|set)\s*<[^;]*?>|std::string|std::istringstream|std::istream::pos_type|CParser::TOKEN_TYPE|"
+           r"CParser::STATUS_TYPE|unsigned int|size_t|int|bool|LDBLE|double|class \w+|struct \w+|cxx\w+)")
+SCALAR_CODES = ("s", "n", "x", "b", "tt", "pos")
+
+
+def type_code(t, ptr):
+    t = t.strip()
+    if ptr:
+        return "p"
+    if "iterator" in t:
+        return "it"
+    for rx, c in ((r"^std::string$", "s"), (r"^(unsigned int|size_t|int)$", "n"), (r"^(LDBLE|double)$", "x"), (r"^bool$", "b"),
+                  (r"^CParser::(TOKEN|STATUS)_TYPE$", "tt"), (r"^std::istream::pos_type$", "pos"), (r"^std::istringstream$", "iss"),
+                  (r"^cxxNameDouble$", "nd"), (r"^std::vector", "v"), (r"^std::(map|set)", "m")):
+        if re.match(rx, t):
+            return c
+    return "o"
+
+
+def parse_decl(st):
+    """a local declaration statement -> (const?, type, ref?, ptr?, [(name, how, init)]) with how in '', '=', '('; else None"""
+    m = re.match(r"^(const )?(%s)( const)?\s*([&\*]\s*)?(?=[A-Za-z_])" % TYPE_RX, st)
+    if not m:
+        return None
+    rest = st[m.end():]
+    decls = []
+    for d in split_args(rest):
+        mm = re.match(r"^(\w+)\s*(?:(=)\s*(.*)|\((.*)\)|(\[.*\]))?$", d, re.S)
+        if not mm:
+            return None
+        how = "=" if mm.group(2) else ("(" if mm.group(4) is not None else ("[" if mm.group(5) else ""))
+        decls.append((mm.group(1), how, mm.group(3) if mm.group(2) else (mm.group(4) if mm.group(4) is not None else "")))
+    if not decls or decls[0][0] in ("return", "else"):
+        return None
+    return (bool(m.group(1) or m.group(3)), m.group(2), "&" in (m.group(4) or ""), "*" in (m.group(4) or ""), decls)
+
+
+def subst_words(text, env):
+    """replace whole identifiers (not member names after . -> ::) outside string literals"""
+    if not env:
+        return text
+    parts = re.split(r'("(?:[^"\\]|\\.)*")', text)
+    rx = re.compile(r"(?<![\w.>:])(%s)\b(?!\s*::)" % "|".join(sorted(map(re.escape, env), key=len, reverse=True)))
+    for k in range(0, len(parts), 2):
+        # `a.b` / `a->b`: b is a member; `x>y` must still be renamed: only `->` and `.` directly before count
+        def rep(m, s=parts[k]):
+            i = m.start()
+            if i >= 1 and s[i - 1] == ">" and not (i >= 2 and s[i - 2] == "-"):
+                return env[m.group(1)]
+            return env[m.group(1)]
+        seg = parts[k]
+        out, last = [], 0
+        for m in re.finditer(r"\b(%s)\b" % "|".join(sorted(map(re.escape, env), key=len, reverse=True)), seg):
+            i = m.start()
+            before = seg[:i].rstrip()
+            if before.endswith(".") and not before.endswith(".."):
+                continue
+            if before.endswith("->") or before.endswith("::"):
+                continue
+            if seg[m.end():].lstrip().startswith("::"):
+                continue
+            out.append(seg[last:i])
+            out.append(env[m.group(1)])
+            last = m.end()
+        out.append(seg[last:])
+        parts[k] = "".join(out)
+    return "".join(parts)
+
+
+def file_constants(src):
+    """file-scope `static const int NAME = 5;` (also without static) -> {NAME: '5'}"""
+    out = {}
+    depth = 0
+    for m in re.finditer(r"[{}]|(?:static\s+)?const\s+(?:unsigned\s+)?(?:int|size_t|long)\s+(\w+)\s*=\s*(-?\d+)\s*;", src):
+        if m.group(0) == "{":
+            depth += 1
+        elif m.group(0) == "}":
+            depth -= 1
+        elif depth == 0:
+            out[m.group(1)] = m.group(2)
+    return out
+
+
+def file_helpers(src):
+    """file-static free functions: name -> (param names, body text)"""
+    out = {}
+    for m in re.finditer(r"(?m)^static\s+(?:inline\s+)?[\w:<>\s\*&]+?\b(\w+)\s*\(", src):
+        name = m.group(1)
+        j = match_brace(src, m.end() - 1, "(", ")")
+        k = j
+        while k < len(src) and src[k].isspace():
+            k += 1
+        if k >= len(src) or src[k] != "{":
+            continue
+        e = match_brace(src, k)
+        ptxt = src[m.end():j - 1]
+        params = [re.sub(r"\[.*\]$", "", re.split(r"[\s\*&]+", q.strip())[-1]) for q in split_args(ptxt) if q.strip() and q.strip() != "void"]
+        out[name] = (params, src[k + 1:e - 1])
+    return out
+
+
+def inline_helpers(body, helpers, where):
+    """`helper(args);` as a whole statement -> `{ helper body with arguments substituted }` (one level)"""
+    if not helpers:
+        return body
+    rx = re.compile(r"(?<![\w.>:])(%s)\s*\(" % "|".join(map(re.escape, helpers)))
+    out, i = [], 0
+    while True:
+        m = rx.search(body, i)
+        if not m:
+            out.append(body[i:])
+            break
+        j = match_brace(body, m.end() - 1, "(", ")")
+        before = body[:m.start()].rstrip()
+        after = body[j:].lstrip()
+        if (before == "" or before[-1] in ";{}") and after.startswith(";"):
+            params, hbody = helpers[m.group(1)]
+            args = split_args(body[m.end():j - 1])
+            if len(args) != len(params):
+                fail(where, f"call of file-static helper {m.group(1)} with {len(args)} arguments for {len(params)} parameters")
+            clean = strip_strings(hbody)
+            for a in args:
+                for ident in re.findall(r"[A-Za-z_]\w*", a):
+                    if ident not in params and re.search(r"\b(?:%s)\s+%s\b" % (TYPE_RX, re.escape(ident)), clean):
+                        fail(where, f"argument {a} of helper {m.group(1)} would be captured by a local of the helper")
+            env = {p_: (a if re.match(r"^[\w>.\-]+$", a) else f"({a})") for p_, a in zip(params, args)}
+            out.append(body[i:m.start()])
+            out.append("{ " + subst_words(hbody, env) + " }")
+            i = j + (len(body[j:]) - len(after)) + 1
+        else:
+            out.append(body[i:m.end()])
+            i = m.end()
+    return "".join(out)
+
+
+def strip_strings(t):
+    return re.sub(r'"(?:[^"\\]|\\.)*"', '""', t)
+
+
+def text_normalise(src, body, where):
+    consts = file_constants(src)
+    body = inline_helpers(body, file_helpers(src), where)
+    body = subst_words(body, consts)
+    parts = re.split(r'("(?:[^"\\]|\\.)*")', body)
+    for k in range(0, len(parts), 2):
+        x = parts[k]
+        x = re.sub(r"\(\s*\*\s*this\s*\)\s*\.", "this->", x)
+        x = re.sub(r"!\s*((?:this->)?[\w.]+(?:->\w+)*)\s*\.\s*empty\s*\(\s*\)", r"\1.size() != 0", x)
+        x = re.sub(r"((?:this->)?[\w.]+(?:->\w+)*)\s*\.\s*empty\s*\(\s*\)", r"\1.size() == 0", x)
+        parts[k] = x
+    return "".join(parts)
+
+
+class Canon:
+    def __init__(self, where):
+        self.where = where
+        self.count = {}
+        self.types = {}          # canonical local -> declared type text
+
+    def fresh(self, code):
+        self.count[code] = self.count.get(code, 0) + 1
+        return f"_{code}{self.count[code]}"
+
+    # ---- pass 1: aliases, const, ++x
+    def pre(self, nodes):
+        out, alias = [], {}
+        for nd in nodes:
+            nd = self.map_text(nd, lambda t: subst_words(t, alias))
+            if nd[0] == "stmt":
+                st = nd[1]
+                st = re.sub(r"^\+\+\s*(\w+)$", r"\1++", st)
+                d = parse_decl(st)
+                if d:
+                    const, typ, ref, ptr, decls = d
+                    if (const or ref) and not ptr and len(decls) == 1 and decls[0][1] == "=" and \
+                            re.match(r"^(\w+->(first|second)|\(\*\w+\)\.(first|second))$", decls[0][2].strip()):
+                        alias[decls[0][0]] = decls[0][2].strip()
+                        continue
+                    st = re.sub(r"^const ", "", st)
+                    st = re.sub(r"^(%s) const\b" % TYPE_RX, r"\1", st)
+                out.append(("stmt", st))
+            elif nd[0] == "block":
+                out.append(("block", self.pre(nd[1])))
+            elif nd[0] == "if":
+                out.append(("if", nd[1], self.pre(nd[2]), self.pre(nd[3])))
+            elif nd[0] in ("for", "while"):
+                head = nd[1]
+                if nd[0] == "for":
+                    hp = head.split(";")
+                    if len(hp) == 3:
+                        hp[2] = re.sub(r"^\s*\+\+\s*(\w+)\s*$", r" \1++", hp[2])
+                        hp[0] = re.sub(r"^\s*const ", "", hp[0])
+                        head = ";".join(hp)
+                out.append((nd[0], head, self.pre(nd[2])))
+            elif nd[0] == "switch":
+                out.append(("switch", nd[1], [(labs, self.pre(body)) for labs, body in nd[2]]))
+            else:
+                out.append(nd)
+        return out
+
+    @staticmethod
+    def map_text(nd, f):
+        k = nd[0]
+        if k == "stmt":
+            return ("stmt", f(nd[1]))
+        if k == "block":
+            return ("block", [Canon.map_text(x, f) for x in nd[1]])
+        if k == "if":
+            return ("if", f(nd[1]), [Canon.map_text(x, f) for x in nd[2]], [Canon.map_text(x, f) for x in nd[3]])
+        if k in ("for", "while"):
+            return (k, f(nd[1]), [Canon.map_text(x, f) for x in nd[2]])
+        if k == "switch":
+            return ("switch", f(nd[1]), [(labs, [Canon.map_text(x, f) for x in body]) for labs, body in nd[2]])
+        return nd
+
+    # ---- indentation strings are named by how they are built
+    def indent_names(self, nodes):
+        names = {}
+
+        def rec(ns):
+            for nd in ns:
+                if nd[0] == "for":
+                    h = norm_stmt(nd[1])
+                    m = re.match(r"^(?:unsigned int |int |size_t )?(\w+) = 0; \1 < indent(?: \+ (\d))?; \1\+\+$", h)
+                    if m and len(nd[2]) == 1 and nd[2][0][0] == "stmt":
+                        mm = re.match(r"^(\w+)\.append\(Utilities::INDENT\)$", nd[2][0][1])
+                        if mm:
+                            names[mm.group(1)] = "indent" + (m.group(2) or "0")
+                if nd[0] in ("block",):
+                    rec(nd[1])
+            # copies: std::string b = a; b.append(INDENT)
+            for i, nd in enumerate(ns):
+                if nd[0] == "stmt":
+                    m = re.match(r"^std::string (\w+) = (\w+)$", nd[1])
+                    if m and m.group(2) in names and any(x[0] == "stmt" and x[1] == f"{m.group(1)}.append(Utilities::INDENT)" for x in ns[i + 1:]):
+                        names[m.group(1)] = "indent" + str(int(names[m.group(2)][6:]) + 1)
+        rec(nodes)
+        return names
+
+    # ---- pass 2: scope-aware renaming + splitting of declarations from initialisers
+    def rename(self, nodes, env, special):
+        env = dict(env)
+        out = []
+        for nd in nodes:
+            k = nd[0]
+            if k == "stmt":
+                d = parse_decl(nd[1])
+                if d:
+                    const, typ, ref, ptr, decls = d
+                    code = type_code(typ, ptr)
+                    plain, inits = [], []
+                    for name, how, init in decls:
+                        init_r = subst_words(init, env)
+                        cn = special.get(name) if (code == "s" and name in special) else self.fresh(code)
+                        env[name] = cn
+                        self.types[cn] = typ + (" *" if ptr else "")
+                        star = "*" if ptr else ("&" if ref else "")
+                        if how == "=" or (how == "(" and code in SCALAR_CODES):
+                            plain.append(f"{typ} {star}{cn}")
+                            inits.append(f"{cn} = {init_r if init_r.strip() else self.default_of(code)}")
+                        elif how == "(":
+                            plain.append(f"{typ} {star}{cn}({init_r})")
+                        elif how == "[":
+                            plain.append(f"{typ} {star}{cn}[]")
+                        else:
+                            plain.append(f"{typ} {star}{cn}")
+                    for p_ in plain:
+                        out.append(("stmt", norm_stmt(p_)))
+                    for i_ in inits:
+                        out.append(("stmt", norm_stmt(i_)))
+                else:
+                    out.append(("stmt", subst_words(nd[1], env)))
+            elif k == "block":
+                out.append(("block", self.rename(nd[1], env, special)))
+            elif k == "if":
+                out.append(("if", subst_words(nd[1], env), self.rename(nd[2], env, special), self.rename(nd[3], env, special)))
+            elif k == "while":
+                out.append(("while", subst_words(nd[1], env), self.rename(nd[2], env, special)))
+            elif k == "for":
+                henv = dict(env)
+                hp = nd[1].split(";")
+                if len(hp) == 3:
+                    d = parse_decl(norm_stmt(hp[0]))
+                    if d and len(d[4]) == 1:
+                        const, typ, ref, ptr, decls = d
+                        name, how, init = decls[0]
+                        cn = self.fresh(type_code(typ, ptr))
+                        self.types[cn] = typ
+                        init_r = subst_words(init, env)
+                        henv[name] = cn
+                        hp[0] = f"{typ} {cn} = {init_r}"
+                        hp[1] = subst_words(hp[1], henv)
+                        hp[2] = subst_words(hp[2], henv)
+                        head = ";".join(hp)
+                    else:
+                        head = subst_words(nd[1], env)
+                else:
+                    head = subst_words(nd[1], env)
+                out.append(("for", head, self.rename(nd[2], henv, special)))
+            elif k == "switch":
+                out.append(("switch", subst_words(nd[1], env), [(labs, self.rename(body, env, special)) for labs, body in nd[2]]))
+            else:
+                out.append(nd)
+        return out
+
+    @staticmethod
+    def default_of(code):
+        return {"b": "false", "s": '""'}.get(code, "0")
+
+    # ---- pass 3: dead initialisers, clamps
+    def post(self, nodes):
+        order = []            # every text in document order, with a handle to delete statements
+
+        def collect(ns):
+            for nd in ns:
+                if nd[0] == "stmt":
+                    order.append(nd[1])
+                elif nd[0] == "block":
+                    collect(nd[1])
+                elif nd[0] == "if":
+                    order.append("if " + nd[1])
+                    collect(nd[2])
+                    collect(nd[3])
+                elif nd[0] in ("for", "while"):
+                    order.append(nd[0] + " " + nd[1])
+                    collect(nd[2])
+                elif nd[0] == "switch":
+                    order.append("switch " + nd[1])
+                    for _, body in nd[2]:
+                        collect(body)
+        collect(nodes)
+        dead = set()
+        for i, st in enumerate(order):
+            m = re.match(r"^(_(?:n|x|tt|s|pos)\d+) = (-?\d+(\.\d+)?|\"\"|[A-Z]\w*::\w+|[A-Z_]+)$", st)
+            if not m:
+                continue
+            v = m.group(1)
+            if i == 0 or not re.search(r"\b%s$" % re.escape(v), order[i - 1]) or not parse_decl(order[i - 1]):
+                continue            # only the initialiser that directly follows the declaration
+            nxt = next((t for t in order[i + 1:] if re.search(r"(?<![\w.>])%s\b" % re.escape(v), t)), None)
+            if nxt is None or re.search(r">> %s\b" % v, nxt) or re.match(r"^%s = " % v, nxt) or re.search(r"\(%s = " % v, nxt) \
+                    or re.search(r"&%s\b" % v, nxt) or re.match(r"^for (?:[\w:]+ )?%s = " % v, nxt):
+                if not (nxt is not None and re.search(r"= .*\b%s\b" % v, nxt) and re.match(r"^%s = " % v, nxt)):
+                    dead.add((i, st))
+        dead_texts = {}
+        for i, st in dead:
+            dead_texts[st] = dead_texts.get(st, 0) + 1
+
+        def prune(ns):
+            out = []
+            for nd in ns:
+                if nd[0] == "stmt":
+                    if dead_texts.get(nd[1], 0) > 0 and re.match(r"^_\w+ = ", nd[1]):
+                        dead_texts[nd[1]] -= 1
+                        continue
+                    out.append(nd)
+                elif nd[0] == "block":
+                    out.append(("block", prune(nd[1])))
+                elif nd[0] == "if":
+                    c = norm_stmt(nd[1])
+                    m = re.match(r"^(_n\d+) < 0$", c)
+                    if m and not nd[3] and len(nd[2]) == 1 and nd[2][0] == ("stmt", f"{m.group(1)} = 0"):
+                        continue            # clamp of a local count
+                    out.append(("if", nd[1], prune(nd[2]), prune(nd[3])))
+                elif nd[0] in ("for", "while"):
+                    out.append((nd[0], nd[1], prune(nd[2])))
+                elif nd[0] == "switch":
+                    out.append(("switch", nd[1], [(labs, prune(body)) for labs, body in nd[2]]))
+                else:
+                    out.append(nd)
+            return out
+        return prune(nodes)
+
+
+def canon_tree(nodes, params, conventional, where):
+    c = Canon(where)
+    if conventional is not None:
+        if len(params) != len(conventional):
+            fail(where, f"function has {len(params)} parameters, the model was written for {len(conventional)}")
+        penv = dict(zip(params, conventional))
+    else:
+        penv = {}
+    nodes = [Canon.map_text(nd, lambda t: subst_words(t, penv)) for nd in nodes] if any(a != b for a, b in penv.items()) else nodes
+    nodes = c.pre(nodes)
+    special = c.indent_names(nodes)
+    nodes = c.rename(nodes, {}, special)
+    nodes = c.post(nodes)
+    return nodes, c
+
+
+def fn_tree(src, cls, name, where, conventional=None, nth=0):
+    """canonical statement tree of cls::name (see the comment at the head of this section); also the line number"""
+    body, line = function_body(src, cls, name, where, nth)
+    body = text_normalise(src, body, where)
+    nodes = parse_block(body, where)
+    params = FUNCTION_PARAMS[(cls, name, nth)]
+    if conventional and isinstance(conventional[0], list):
+        conventional = next((c_ for c_ in conventional if len(c_) == len(params)), conventional[0])
+    nodes, c = canon_tree(nodes, params, conventional, where)
+    return nodes, line, c
+
+
+def tree_text(nodes):
+    """one-line canonical text of a tree (for shape checks on small functions)"""
+    out = []
+    for nd in nodes:
+        if nd[0] == "stmt":
+            out.append(nd[1] + ";")
+        elif nd[0] == "block":
+            out.append("{ " + tree_text(nd[1]) + " }")
+        elif nd[0] == "if":
+            out.append(f"if ({norm_stmt(nd[1])}) {{ {tree_text(nd[2])} }}" + (f" else {{ {tree_text(nd[3])} }}" if nd[3] else ""))
+        elif nd[0] in ("for", "while"):
+            out.append(f"{nd[0]} ({norm_stmt(nd[1])}) {{ {tree_text(nd[2])} }}")
+        elif nd[0] == "switch":
+            out.append(f"switch ({nd[1]}) {{ " + " ".join(f"case {','.join(l)}: {tree_text(b)}" for l, b in nd[2]) + " }")
+    return " ".join(out)
+
+
 # ------------------------------------------------------------------------------------------------ class header
 def class_members(hsrc, cls, where):
     """data members of the class: name -> declared type text"""
@@ -344,10 +796,9 @@ def parse_vopts(src, cls, where):
 
 # ------------------------------------------------------------------------------------------------ writer
 IGNORED_WRITER_STMT = re.compile(
-    r"^(unsigned int i|int i = 0|i = 0|s_oss\.precision\(DBL_DIG \+ 2\)|std::string indent0\(\"\"\)(, indent\d\(\"\"\))*|"
-    r"std::string indent1 = indent0|indent\d\.append\(Utilities::INDENT\)|return|"
-    r"int n_user_local = \(n_out != NULL\) \? \*n_out : this->n_user|"
-    r"std::map\s*<[^;]*>::const_iterator \w+( = (this->)?\w+\.begin\(\))?)$")
+    r"^((unsigned int|int|size_t) _n\d+|_n\d+ = 0|s_oss\.precision\(DBL_DIG \+ 2\)|std::string indent\d|indent\d = \"\"|"
+    r"indent\d = indent\d|indent\d\.append\(Utilities::INDENT\)|return|"
+    r"std::(map|vector)\s*<[^;]*>::const_iterator _it\d+|_it\d+ = (this->)?\w+\.begin\(\)|cxx\w+ \*_p\d+)$")
 
 
 def norm_expr(e):
@@ -369,6 +820,9 @@ class Writer:
         self.cur = None            # entry that subsequent data lines / sub-dumps belong to
         self.locals = {}           # local pointer / iterator -> (member, type)
         self.sections = []
+        self.wrap_widths = []      # values per line of wrapped number lists
+        self.n_user_local = None   # the local that holds `n_out ? *n_out : n_user`
+        self.canon = None
 
     def member_of(self, e, loops):
         """member printed by expression e -> (member or '' for a constant, is_header_token)"""
@@ -416,7 +870,7 @@ class Writer:
             return
         if text0 is not None and re.match(r"^[A-Z_]+_RAW\s", text0):
             self.header = text0.split()[0]
-            want = ["n_user_local", "this->description"]
+            want = [self.n_user_local, "this->description"]
             if [norm_expr(x).replace(" ", "") for x in exprs] != [w for w in want]:
                 fail(self.where, "writer: header line does not print `n_user description`", str(items))
             return
@@ -487,16 +941,16 @@ class Writer:
     def loop_info(self, head):
         """classify a for-header: which member is iterated, loop variable, element type"""
         h = norm_stmt(head)
-        if re.match(r"^i = 0 ; i < indent( \+ \d)? ; \+\+i$", re.sub(r"\s*;\s*", " ; ", h)):
+        if re.match(r"^(?:unsigned int |int |size_t )?(_n\d+) = 0; \1 < indent( \+ \d)?; \1\+\+$", h):
             return dict(kind="indent")
-        m = re.search(r"(?:this->|\(\*this\)\.)?(\w+)\.(?:size|begin|end)\(\)", h)
-        if "(*this).begin()" in h:
+        m = re.search(r"(?:this->)?(\w+)\.(?:size|begin|end)\(\)", h)
+        if "this->begin()" in h:
             return dict(kind="self")
         if not m or m.group(1) not in self.members:
             fail(self.where, "writer: loop over something that is not a member", h)
         mem = m.group(1)
         var = None
-        mv = re.match(r"^(?:std::\w+\s*<[^;]*>::const_iterator\s+)?(\w+) = ", h) or re.match(r"^size_t (\w+) = 0", h)
+        mv = re.match(r"^(?:[^;=]*?\s)?(_\w+) = ", h)
         if mv:
             var = mv.group(1)
         else:
@@ -522,10 +976,12 @@ class Writer:
                 self.walk(nd[1], guards, loops)
             elif k == "if":
                 cond = norm_stmt(nd[1])
-                if cond == "i++ == 5":           # line wrapping of a vector: prints "\n" + indent only
+                mw = re.match(r"^(_n\d+)\+\+ == (\d+)$", cond)
+                if mw:           # line wrapping of a vector: prints "\n" + indent only, after every <width + 1> values
                     for s in nd[2]:
-                        if s[0] != "stmt" or not re.match(r'^(s_oss << ("\\n"|indent\d)|i = 0)$', s[1]):
+                        if s[0] != "stmt" or not re.match(r'^(s_oss << ("\\n"|indent\d)|%s = 0)$' % mw.group(1), s[1]):
                             fail(self.where, "writer: unexpected statement in line-wrap block", str(s))
+                    self.wrap_widths.append(int(mw.group(2)) + 1)
                     continue
                 if self.cls == "cxxNameDouble":
                     self.walk(nd[2], guards, loops)
@@ -558,9 +1014,13 @@ class Writer:
     def stmt(self, s, guards, loops):
         if IGNORED_WRITER_STMT.match(s):
             return
-        m = re.match(r"^const (cxx\w+) \* (\w+) = &\(this->(\w+)\[\w+\]\)$", s)
-        if m and m.group(3) in self.members:
-            self.locals[m.group(2)] = (m.group(3), m.group(1))
+        m = re.match(r"^(_p\d+) = &\(this->(\w+)\[\w+\]\)$", s)
+        if m and m.group(2) in self.members:
+            self.locals[m.group(1)] = (m.group(2), self.canon.types.get(m.group(1), ""))
+            return
+        m = re.match(r"^(_n\d+) = \(n_out != NULL\) \? \*n_out : this->n_user$", s)
+        if m:
+            self.n_user_local = m.group(1)
             return
         if s.startswith("s_oss <<"):
             parts = split_shift(s)[1:]
@@ -573,7 +1033,7 @@ class Writer:
                 elif p.startswith('"') or re.match(r"^indent\d$", p):
                     self.items.append(p)
                 else:
-                    mem, is_h = self.member_of(p, loops) if not re.match(r"^(n_user_local|this->description)$", norm_expr(p)) else (None, False)
+                    mem, is_h = self.member_of(p, loops) if norm_expr(p) not in (self.n_user_local, "this->description") else (None, False)
                     self.resolved[len(self.items)] = (mem, is_h and bool(loops) and loops[-1].get("kind") == "nested")
                     self.items.append(p)
             return
@@ -605,12 +1065,13 @@ class Writer:
 
 
 def parse_writer(tab, cls, src, members, where):
-    body, line = function_body(src, cls, "dump_raw", where)
-    if cls != "cxxSolutionIsotope" and "s_oss.precision(DBL_DIG + 2)" not in " ".join(body.split()):
+    nodes, line, canon = fn_tree(src, cls, "dump_raw", where, [["s_oss", "indent", "n_out"], ["s_oss", "indent"]])
+    if cls != "cxxSolutionIsotope" and "s_oss.precision(DBL_DIG + 2);" not in tree_text(nodes):
         fail(where, "dump_raw does not print doubles with 17 significant digits (precision(DBL_DIG + 2)): Sys.ValOk assumes the "
                     "IEEE round trip of the text")
     w = Writer(tab, cls, members, where)
-    w.walk(parse_block(body, where), [], [])
+    w.canon = canon
+    w.walk(nodes, [], [])
     if w.items:
         fail(where, "writer: unterminated output line", str(w.items))
     return w, line
@@ -655,7 +1116,7 @@ def drop_failure_blocks(nodes, where):
         if nd[0] == "if":
             cond = norm_stmt(nd[1])
             m = re.match(r"^!\((.*)\)$", cond)
-            m2 = re.match(r"^(.*\.read_raw\(parser, next_char\)) != CParser::PARSER_OK$", cond)
+            m2 = re.match(r"^(.*\.read_raw\(parser, _pos\d+\)) != CParser::PARSER_OK$", cond)
             if m and ">>" in m.group(1):
                 blk = str(nd[2])
                 if "error_msg" not in blk and "incr_input_error" not in blk and nd[2] != [("stmt", "break")]:
@@ -695,6 +1156,9 @@ class Reader:
     def __init__(self, tab, cls, members, where):
         self.tab, self.cls, self.members, self.where = tab, cls, members, where
         self.elem_ref = {}
+        self.types = {}
+        self.opt_var = self.save_var = self.last_var = self.tok_var = None
+        self.once = set()
 
     def target(self, t):
         """an lvalue -> ('member', name) | ('local', name)"""
@@ -703,7 +1167,7 @@ class Reader:
         if not m:
             fail(self.where, "reader: unrecognised read target", t)
         nm, idx = m.group(1), m.group(3)
-        is_member = t.startswith("this->") or (nm in self.members and nm not in self.locals)
+        is_member = t.startswith("this->") or (nm in self.members and not nm.startswith("_"))
         if is_member:
             if nm not in self.members:
                 fail(self.where, "reader: this-> target is not a member of the class", t)
@@ -715,9 +1179,10 @@ class Reader:
             return ("member", nm + ("[*]" if ("map" not in typ) else ""))
         return ("local", nm)
 
-    def analyse_case(self, labels, text, post_flows):
+    def analyse_case(self, labels, body_nodes, post_flows):
         where = f"{self.where} case {','.join(labels)}"
-        nodes = drop_failure_blocks(parse_block(text, where), where)
+        text = tree_text(body_nodes)
+        nodes = drop_failure_blocks(body_nodes, where)
         stmts = list(flat_stmts(nodes))
         holds = {}          # local -> True when it holds (part of) the value read from the line
         sinks, flags, kind, child, htok = [], [], None, "", 0
@@ -725,9 +1190,14 @@ class Reader:
         child_local = None
         header_locals = []
         cond_member, clobbers = None, []
+        OPT, SAVE, LAST = self.opt_var, self.save_var, self.last_var
         for s in stmts:
-            if s in ("break", "continue", "i = 0", "int i", "int i = 0", "int s_num", "double d", "LDBLE d", "std::string str",
-                     "std::string name", "LDBLE z", "LDBLE dummy", "double dd", "int j", "std::string token"):
+            if s in ("break", "continue"):
+                continue
+            d = parse_decl(s)
+            if d and all(how == "" for _, how, _ in d[4]):
+                continue                                    # declaration without initialiser
+            if re.match(r"^_n\d+ = 0$", s) and s.split(" ")[0] not in (SAVE, OPT):
                 continue
             if re.match(r"^(parser\.)?incr_input_error\(\)$", s):
                 errors = True
@@ -738,24 +1208,28 @@ class Reader:
             if re.match(r"^(parser\.)?(warning_msg|output_msg)\(", s):
                 warns = True
                 continue
-            m = re.match(r"^opt_save = (CParser::OPT_DEFAULT|CParser::OPT_ERROR|\d+)$", s)
+            m = SAVE and re.match(r"^%s = (CParser::OPT_DEFAULT|CParser::OPT_ERROR|\d+)$" % SAVE, s)
             if m:
                 opt_save = m.group(1)
                 continue
-            m = re.match(r"^useLastLine = (true|false)$", s)
+            m = LAST and re.match(r"^%s = (true|false)$" % LAST, s)
             if m:
                 use_last = (m.group(1) == "true") or bool(use_last)
                 continue
-            m = re.match(r"^opt = (CParser::OPT_\w+)$", s)
+            m = re.match(r"^%s = (CParser::OPT_\w+)$" % OPT, s)
             if m:
                 opt_assign = m.group(1)
                 continue
-            m = re.match(r"^(\w+_defined) = true$", s)
+            m = re.match(r"^(_b\d+) = true$", s)
             if m:
                 flags.append(m.group(1))
                 continue
+            m = re.match(r"^(_b\d+) = false$", s) or re.match(r"^if !?(_b\d+)$", s)
+            if m:
+                self.once.add(m.group(1))                   # once-only guards (`cleared_once`, `g_map_first`)
+                continue
             # stream reads
-            m = re.match(r"^(?:parser\.get_iss\(\)|iss) >> (.+)$", s)
+            m = re.match(r"^(?:parser\.get_iss\(\)|_iss\d+) >> (.+)$", s)
             if m:
                 for t in split_shift(m.group(1), ">>"):
                     k, nm = self.target(t)
@@ -767,7 +1241,7 @@ class Reader:
                         header_locals.append(nm)
                 kind = kind or "value"
                 continue
-            m = re.match(r"^(.+)\.read_raw\(parser, next_char\)$", s)
+            m = re.match(r"^(.+)\.read_raw\(parser, _pos\d+\)$", s)
             if m:
                 k, nm = self.target(m.group(1))
                 if k == "member":
@@ -776,91 +1250,77 @@ class Reader:
                     holds[nm] = True
                 kind = "namedouble"
                 continue
-            m = re.match(r"^(\w+)\.read_raw\(parser, (check|false|true)\)$", s)
+            m = re.match(r"^(_o\d+)\.read_raw\(parser, (check|false|true)\)$", s)
             if m:
                 child_local = m.group(1)
-                if child_local not in self.locals or not self.child_of(self.locals[child_local]):
+                if not self.child_of(self.types.get(child_local, "")):
                     fail(where, "reader: sub-read into something that is not a known entity class", s)
-                child = self.child_of(self.locals[child_local])
+                child = self.child_of(self.types[child_local])
                 kind = "nested"
                 htok = len(header_locals)
                 holds[child_local] = True
                 continue
-            m = re.match(r"^(LDBLE|double|int|std::string) \w+(, \w+)*$", s)
-            if m:
-                continue
-            m = re.match(r"^if (\w+_first)$", s) or re.match(r"^(\w+_first) = false$", s)
-            if m and m.group(1) in self.locals:
-                continue
             m = re.match(r"^this->(\w+)\.(clear\(\)|assign\(\d+, 0\.0\))$", s)
             if m and m.group(1) in self.members:
                 continue
-            m = re.match(r"^std::map<[^;]*>::iterator (\w+) = (\w+)\.find\((\w+)\)$", s)
+            m = re.match(r"^(_it\d+) = (\w+)\.find\((_\w+)\)$", s)
             if m and m.group(2) in self.members and m.group(3) in holds:
                 self.elem_ref[m.group(1)] = m.group(2)
                 continue
-            m = re.match(r"^(\w+)->second\.Set_\w+\((\w+)\)$", s)
+            m = re.match(r"^(_it\d+)->second\.Set_\w+\((_\w+)\)$", s)
             if m and m.group(1) in self.elem_ref and m.group(2) in holds:
                 if self.elem_ref[m.group(1)] not in sinks:
                     sinks.append(self.elem_ref[m.group(1)])
                 continue
-            # local declarations
-            m = re.match(r"^(cxx\w+) (\w+)(\(.*\))?$", s)
+            # local objects / pointers
+            if re.match(r"^cxx\w+ \*?_[op]\d+(\(.*\))?$", s):
+                continue
+            m = re.match(r"^(_p\d+) = this->Find(_\w+)?\((_s\d+)(\.c_str\(\))?\)$", s)
             if m:
-                self.locals[m.group(2)] = m.group(1)
                 continue
-            m = re.match(r"^(cxx\w+) \*\s?(\w+) = this->Find(_\w+)?\((\w+)(\.c_str\(\))?\)$", s)
-            if m:
-                self.locals[m.group(2)] = m.group(1) + "*"
-                continue
-            m = re.match(r"^(\w+_ptr) = this->Find(_\w+)?\((\w+)(\.c_str\(\))?\)$", s)
-            if m and m.group(1) in self.locals:
-                continue
-            m = re.match(r'^\(void\)sscanf\(token\.c_str\(\), "%lf", &(\w+)\)$', s)
+            m = re.match(r'^\(void\)sscanf\(_s\d+\.c_str\(\), "%lf", &(_x\d+)\)$', s)
             if m:
                 holds[m.group(1)] = True
                 kind = kind or "value"
                 continue
-            m = re.match(r"^std::istringstream iss\(token\)$", s)
+            m = re.match(r"^std::istringstream _iss\d+\(_s\d+\)$", s)
             if m:
                 continue
-            m = re.match(r"^j = parser\.copy_token\(token, next_char\)$", s)
+            m = re.match(r"^(_(?:tt|n)\d+) = parser\.copy_token\((_s\d+), _pos\d+\)$", s)
             if m:
-                holds["token"] = True
+                holds[m.group(2)] = True
+                self.tok_var = m.group(1)
                 kind = kind or "value"
                 continue
-            if s == "if j == CParser::TT_EMPTY":
+            if re.match(r"^if _(?:tt|n)\d+ == CParser::TT_EMPTY$", s):
                 continue
-            m = re.match(r"^this->Set_(\w+)\(token\.c_str\(\)\)$", s)
-            if m and "token" in holds and m.group(1) in self.members:
+            m = re.match(r"^this->Set_(\w+)\((_s\d+)\.c_str\(\)\)$", s)
+            if m and m.group(2) in holds and m.group(1) in self.members:
                 sinks.append(m.group(1))
                 continue
-            m = re.match(r"^if !(cleared_once)$", s) or re.match(r"^(cleared_once) = true$", s)
-            if m and m.group(1) in self.locals:
-                continue
-            m = re.match(r"^while (\(k = )?parser\.copy_token\(token, next_char\)\)? == CParser::TT_DIGIT$", s)
+            m = re.match(r"^while (\(_(?:tt|n)\d+ = )?parser\.copy_token\((_s\d+), _pos\d+\)\)? == CParser::TT_DIGIT$", s)
             if m:
                 kind = kind or "value"
                 continue
-            m = re.match(r"^if parser\.(peek_token\(\)|copy_token\(token, next_char\)) != CParser::TT_EMPTY$", s)
+            m = re.match(r"^if parser\.(peek_token\(\)|copy_token\((_s\d+), _pos\d+\)) != CParser::TT_EMPTY$", s)
             if m:
-                if "copy_token" in s:
-                    holds["token"] = True
+                if m.group(2):
+                    holds[m.group(2)] = True
                 continue
-            m = re.match(r"^for (int|size_t) \w+ = 0; \w+ < \d+; \w+\+\+$", s)
+            m = re.match(r"^for (int|size_t) (_n\d+) = 0; \2 < \d+; \2\+\+$", s)
             if m:
                 continue
-            if re.match(r"^if (\w+_ptr)$", s) or re.match(r"^if Utilities::strcmp_nocase\(this->\w+\[j\]\.Get_\w+\(\)\.c_str\(\), str\.c_str\(\)\) == 0$", s) \
-                    or re.match(r"^for size_t j = 0; j < this->\w+\.size\(\); j\+\+$", s):
+            if re.match(r"^if (_p\d+)$", s) or re.match(r"^if Utilities::strcmp_nocase\(this->\w+\[_n\d+\]\.Get_\w+\(\)\.c_str\(\), _s\d+\.c_str\(\)\) == 0$", s) \
+                    or re.match(r"^for size_t (_n\d+) = 0; \1 < this->\w+\.size\(\); \1\+\+$", s):
                 continue
-            m = re.match(r"^(\w+) = \*(\w+)$", s)        # temp_comp = *comp_ptr
-            if m and m.group(1) in self.locals:
+            m = re.match(r"^(_o\d+) = \*(_p\d+)$", s)        # temp_comp = *comp_ptr
+            if m:
                 continue
-            m = re.match(r"^(\w+)\.Set_\w+\((\w+)(\.c_str\(\))?\)$", s)      # temp_comp.Set_formula(str.c_str())
-            if m and m.group(1) in self.locals and m.group(2) in holds:
+            m = re.match(r"^(_o\d+)\.Set_\w+\((_s\d+)(\.c_str\(\))?\)$", s)      # temp_comp.Set_formula(str.c_str())
+            if m and m.group(2) in holds:
                 continue
             # flows local -> member
-            m = re.match(r"^(.+?) = (?:\([\w: ]+\)\s*)?(\w+)$", s)
+            m = re.match(r"^(.+?) = (?:\([\w: ]+\)\s*)?(_\w+)$", s)
             if m and m.group(2) in holds:
                 k, nm = self.target(re.sub(r"\[(\w+)\]$", lambda mm: "" if mm.group(1) in holds else mm.group(0), m.group(1)))
                 if k == "member":
@@ -869,7 +1329,7 @@ class Reader:
                 else:
                     holds[nm] = True
                 continue
-            m = re.match(r"^(.+?)\.(push_back|merge_redox)\((?:\(\w+\)\s?)?(\w+)\)$", s)
+            m = re.match(r"^(.+?)\.(push_back|merge_redox)\((?:\(\w+\)\s?)?(_\w+)\)$", s)
             if m and m.group(3) in holds:
                 k, nm = self.target(m.group(1))
                 if k == "member":
@@ -878,16 +1338,16 @@ class Reader:
                 else:
                     holds[nm] = True
                 continue
-            m = re.match(r"^this->(\w+)\[(\w+)\] = (\w+)$", s)        # g_map[z] = temp_surf_dl
+            m = re.match(r"^this->(\w+)\[(_\w+)\] = (_\w+)$", s)        # g_map[z] = temp_surf_dl
             if m and m.group(2) in holds and m.group(1) in self.members:
                 if m.group(1) not in sinks:
                     sinks.append(m.group(1))
                 continue
-            m = re.match(r"^if (\w+)$", s)
+            m = re.match(r"^if (_\w+)$", s)
             if m and m.group(1) in holds:
                 continue
             # range validation of a value just read: `if (i == (int) E::A || i == (int) E::B) assign; else error`
-            m = re.match(r"^if (\w+) (?:==|>=|<=) \(int\) ?[\w:]+( (?:\|\||&&) (\w+) (?:==|>=|<=) \(int\) ?[\w:]+)*$", s)
+            m = re.match(r"^if (_\w+) (?:==|>=|<=) \(int\) ?[\w:]+( (?:\|\||&&) (_\w+) (?:==|>=|<=) \(int\) ?[\w:]+)*$", s)
             if m and m.group(1) in holds and (m.group(3) is None or m.group(3) == m.group(1)):
                 continue
             # conditional constant side effect on another member: `if (this->X) this->Y = false;`
@@ -899,16 +1359,16 @@ class Reader:
             if m and cond_member and m.group(1) in self.members:
                 clobbers.append(m.group(1))
                 continue
-            m = re.match(r"^this->(\w+) = \(?(\w+) (?:!= 0|== 1)\)?$", s)    # this->pr_in = (i != 0)
+            m = re.match(r"^this->(\w+) = \(?(_\w+) (?:!= 0|== 1)\)?$", s)    # this->pr_in = (i != 0)
             if m and m.group(2) in holds and m.group(1) in self.members:
                 if m.group(1) not in sinks:
                     sinks.append(m.group(1))
                 continue
-            m = re.match(r"^this->(\w+) = \((\w+) == 0\) \? false : true$", s)
+            m = re.match(r"^this->(\w+) = \((_\w+) == 0\) \? false : true$", s)
             if m and m.group(2) in holds and m.group(1) in self.members:
                 sinks.append(m.group(1))
                 continue
-            m = re.match(r"^this->(\w+) = (\w+) \? true : false$", s)
+            m = re.match(r"^this->(\w+) = (_\w+) \? true : false$", s)
             if m and m.group(2) in holds and m.group(1) in self.members:
                 sinks.append(m.group(1))
                 continue
@@ -938,77 +1398,109 @@ class Reader:
 
 
 def parse_reader(tab, cls, src, members, where):
-    body, line = function_body(src, cls, "read_raw", where)
+    nodes, line, canon = fn_tree(src, cls, "read_raw", where, [["parser", "check"], ["parser"]])
     r = Reader(tab, cls, members, where)
-    nodes = parse_block(body, where)
+    r.types = canon.types
     # locate the for(;;) loop containing the switch
     loop = [nd for nd in nodes if nd[0] == "for" and nd[1].replace(" ", "") == ";;"]
     if len(loop) != 1:
         fail(where, "reader: expected exactly one for(;;) loop")
     sw = [nd for nd in loop[0][2] if nd[0] == "switch"]
-    if len(sw) != 1 or sw[0][1].strip() != "opt":
-        fail(where, "reader: expected exactly one switch (opt)")
+    if len(sw) != 1 or not re.match(r"^_n\d+$", sw[0][1]):
+        fail(where, "reader: expected exactly one switch on the option number")
+    OPT = r.opt_var = sw[0][1]
     pre = [nd for nd in loop[0][2] if nd[0] != "switch"]
     pre_txt = " ".join(flat_stmts(pre))
-    uses_last = bool(re.search(r"getOptionFromLastLine\(vopts, next_char, (true|false)\)", pre_txt))
-    if "parser.get_option(vopts, next_char)" not in pre_txt:
-        fail(where, "reader: option lookup is not parser.get_option(vopts, next_char)")
-    default_to_save = bool(re.search(r"if opt == CParser::OPT_DEFAULT opt = opt_save", pre_txt))
-    reset_save_each_line = "opt_save = CParser::OPT_DEFAULT" in pre_txt
-    # function-level locals
-    r.locals = {}
-    for nd in nodes:
-        if nd[0] == "stmt":
-            m = re.match(r"^(?:std::vector\s*<\s*\w+\s*>|LDBLE|double|int|bool|std::string|cxxNameDouble|std::istream::pos_type|cxx\w+ \*) ?(\w+)", nd[1])
-            if m:
-                r.locals[m.group(1)] = nd[1].split(" " + m.group(1))[0]
+    m = re.search(r"%s = parser\.get_option\(vopts, (_pos\d+)\)" % OPT, pre_txt)
+    if not m:
+        fail(where, "reader: option lookup is not <opt> = parser.get_option(vopts, <pos>)")
+    pos = m.group(1)
+    ml = None
+    for nd in pre:
+        if nd[0] == "if":
+            mc = re.match(r"^(_b\d+) == false$", norm_stmt(nd[1]))
+            then_t, else_t = list(flat_stmts(nd[2])), list(flat_stmts(nd[3]))
+            if mc and f"{OPT} = parser.get_option(vopts, {pos})" in then_t and \
+                    any(re.match(r"^%s = parser\.getOptionFromLastLine\(vopts, %s, (true|false)\)$" % (OPT, pos), t) for t in else_t) and \
+                    not any(t.startswith(OPT + " =") and "getOptionFromLastLine" not in t for t in else_t):
+                ml = mc
+    uses_last = bool(ml)
+    r.last_var = ml.group(1) if ml else None
+    if "getOptionFromLastLine" in pre_txt and not ml:
+        fail(where, "reader: getOptionFromLastLine is not the alternative of get_option under the use-last-line flag")
+    ms = re.search(r"if %s == CParser::OPT_DEFAULT %s = (_n\d+)" % (OPT, OPT), pre_txt)
+    default_to_save = bool(ms)
+    r.save_var = ms.group(1) if ms else None
+    if r.save_var is None:
+        # readers that keep a continuation option without the OPT_DEFAULT redirection inside the loop do not exist; a reader
+        # without the redirection has no save variable at all
+        pass
+    reset_save_each_line = bool(r.save_var and re.search(r"(^| )%s = CParser::OPT_DEFAULT( |$)" % r.save_var, pre_txt))
     # flows after the loop: `if (x_defined) this->M = temp;` or `this->M = temp;`
     post_flows, required = {}, []
     after = nodes[nodes.index(loop[0]) + 1:]
-    for s in flat_stmts(after):
-        m = re.match(r"^this->(\w+) = (\w+)$", s)
-        if m and m.group(2) in r.locals and m.group(1) in members:
+    for s_ in flat_stmts(after):
+        m = re.match(r"^this->(\w+) = (_\w+)$", s_)
+        if m and m.group(1) in members:
             post_flows[m.group(2)] = m.group(1)
     for nd in after:
         if nd[0] == "if" and norm_stmt(nd[1]) == "check":
-            for s in flat_stmts(nd[2]):
-                m = re.match(r"^if (\w+) == false$", s)
+            for s_ in flat_stmts(nd[2]):
+                m = re.match(r"^if (\w+) == false$", s_)
                 if m:
                     required.append(m.group(1))
-                elif not re.match(r"^(parser\.)?(incr_input_error\(\)|error_msg\()", s):
-                    fail(where, "reader: unrecognised statement in the check block", s)
+                elif not re.match(r"^(parser\.)?(incr_input_error\(\)|error_msg\()", s_):
+                    fail(where, "reader: unrecognised statement in the check block", s_)
     cases, unknown = [], None
-    for labels, text in split_cases(sw[0][2], where):
+    for labels, body in sw[0][2]:
+        text = tree_text(body)
         sym = [l for l in labels if not l.isdigit()]
         if sym:
             if len(sym) != len(labels):
                 fail(where, "reader: numeric and symbolic labels share a case", str(labels))
             if "CParser::OPT_ERROR" in labels:
-                t = " ".join(text.split())
-                if "opt = CParser::OPT_KEYWORD" in t and "error_msg" not in t:
+                if f"{OPT} = CParser::OPT_KEYWORD;" in text and "error_msg" not in text:
                     unknown = "return"
-                elif "error_msg" in t and "opt = CParser::OPT_EOF" in t:
+                elif "error_msg" in text and f"{OPT} = CParser::OPT_EOF;" in text:
                     unknown = "error"
                 else:
-                    fail(where, "reader: unrecognised handling of an unknown option", t)
+                    fail(where, "reader: unrecognised handling of an unknown option", text)
                 if "CParser::OPT_DEFAULT" not in labels and tab != "Mix":
                     fail(where, "reader: OPT_DEFAULT not handled with OPT_ERROR")
             elif labels == ["CParser::OPT_DEFAULT"]:
-                c = r.analyse_case(["default"], text, post_flows)
+                c = r.analyse_case(["default"], body, post_flows)
                 c["labels"] = []
                 c["default_line"] = True
                 cases.append(c)
             elif set(labels) <= {"CParser::OPT_EOF", "CParser::OPT_KEYWORD"}:
-                if " ".join(text.split()) != "break;":
+                if text != "break;":
                     fail(where, "reader: EOF/KEYWORD case does more than break")
             else:
                 fail(where, "reader: unknown symbolic case label", str(labels))
             continue
-        c = r.analyse_case(labels, text, post_flows)
+        c = r.analyse_case(labels, body, post_flows)
         c["labels"] = [int(l) for l in labels]
         # continuation lines come back to this case only when opt_save names it
         c["continues"] = (c["opt_save"] is not None and c["opt_save"].isdigit() and int(c["opt_save"]) in c["labels"])
         cases.append(c)
+    cases.sort(key=lambda c: (not c["labels"], min(c["labels"]) if c["labels"] else 0))     # a switch is a SET of label groups
+    for c in cases:
+        c["labels"] = sorted(c["labels"])
+        c["flags"] = [f for f in c["flags"] if f not in r.once]
+    # a flag is identified by the cases that set it, not by its name
+    def flag_id(f):
+        labs = sorted(l for c in cases for l in c["labels"] if f in c["flags"])
+        return "flag_of_case_" + "_".join(map(str, labs)) if labs else None
+    ids = {}
+    for c in cases:
+        for f in c["flags"]:
+            ids[f] = flag_id(f)
+    for i, f in enumerate(required):
+        if f not in ids:
+            ids[f] = f"flag_never_set_{i}"
+    for c in cases:
+        c["flags"] = [ids[f] for f in c["flags"]]
+    required = [ids[f] for f in required]
     if unknown is None:
         fail(where, "reader: no OPT_ERROR case")
     return dict(cases=cases, unknown=unknown, uses_last=uses_last, required=required, default_to_save=default_to_save,
@@ -1036,48 +1528,54 @@ def extract(repo=None):
             fail(where, "duplicate case labels")
         tables.append(dict(name=tab, file=f"src/phreeqcpp/{stem}.cxx", cls=cls, keyword=w.header or "", vopts=vopts,
                            written=w.entries, sections=w.sections, reader=rd, dump_raw_line=wline, read_raw_line=rline))
-    # NameDouble: the shape of its one-line writer/reader is checked, it has no options
+    # NameDouble: the shape of its one-line writer/reader is checked, it has no options. All shapes are read from the CANONICAL
+    # tree (locals named by definition), so only what the statements do matters, not how they are spelled.
     nd = preprocess(strip_comments((base / "NameDouble.cxx").read_text(errors="replace")), "NameDouble.cxx")
-    body, _ = function_body(nd, "cxxNameDouble", "dump_raw", "NameDouble.cxx dump_raw")
-    flat = " ".join(body.split())
-    if not re.search(r'pad_right\(it->first, 29 - indent0\.size\(\)\) << it->second << "\\n"', flat) or \
-            not re.search(r'pad_right\(it->first, it->first\.size\(\) \+ indent0\.size\(\)\) << " " << it->second << "\\n"', flat):
-        fail("NameDouble.cxx", "dump_raw does not print `name value` lines")
-    if "s_oss.precision(DBL_DIG + 2)" not in flat:
+
+    del SHAPE_NOTES[:]
+
+    def shape(src_, cls_, fn_, conv, nth, what, rx, hard=True):
+        """hard: no other tie exists for this function -> fail closed. Not hard: the function is compared in-process with its Lean
+        model on every run (differential correspondence), so a different but equivalent body is reported as a note only"""
+        nodes_, _, _ = fn_tree(src_, cls_, fn_, f"{cls_}::{fn_}", conv, nth)
+        flat_ = tree_text(nodes_)
+        if not re.search(rx, flat_):
+            if hard:
+                fail(f"{cls_}::{fn_}", what, flat_[:300])
+            SHAPE_NOTES.append(f"{cls_}::{fn_}: {what} (tie: in-process correspondence with the model)")
+        return flat_
+    flat = shape(nd, "cxxNameDouble", "dump_raw", ["s_oss", "indent"], 0, "dump_raw does not print `name value` lines",
+                 r'for \(const_iterator (?P<it>_it\d+) = this->begin\(\); (?P=it) != this->end\(\); (?P=it)\+\+\) \{ s_oss << indent0; '
+                 r'if \((?P=it)->first\.size\(\) < 29 - indent0\.size\(\)\) \{ s_oss << Utilities::pad_right\((?P=it)->first, 29 - indent0\.size\(\)\) << '
+                 r'(?P=it)->second << "\\n"; \} else \{ s_oss << Utilities::pad_right\((?P=it)->first, (?P=it)->first\.size\(\) \+ indent0\.size\(\)\) << " " << '
+                 r'(?P=it)->second << "\\n"; \} \}')
+    if "s_oss.precision(DBL_DIG + 2);" not in flat:
         fail("NameDouble.cxx", "dump_raw does not print doubles with 17 significant digits")
-    body, _ = function_body(nd, "cxxNameDouble", "read_raw", "NameDouble.cxx read_raw")
-    flat = " ".join(body.split())
-    if "j = parser.copy_token(token, pos)" not in flat or "parser.get_iss() >> d" not in flat or "(*this)[token.c_str()] = d" not in flat:
-        fail("NameDouble.cxx", "read_raw does not read `name value` into the map")
-    body, _ = function_body(nd, "cxxNameDouble", "merge_redox", "NameDouble.cxx merge_redox")
-    flat = " ".join(body.split())
-    for need in ("for (cxxNameDouble::const_iterator sit = source.begin(); sit != source.end(); sit++)",
-                 'size_t pos = redox_name.find("(");', "elt_name = redox_name.substr(0, pos);",
-                 "if ((*this).find(elt_name) != (*this).end()) { (*this).erase((*this).find(elt_name)); }",
-                 "(*this)[redox_name] = sit->second;", 'substring.append(elt_name); substring.append("(");',
-                 "bool deleted = true; while (deleted) { deleted = false; cxxNameDouble::iterator current = (*this).begin(); "
-                 "for ( ; current != (*this).end(); current++) { if (current->first.find(substring) == 0) { (*this).erase(current); "
-                 "deleted = true; break; } } }", "(*this)[elt_name] = sit->second;"):
-        if need not in flat:
-            fail("NameDouble.cxx", "merge_redox no longer has the shape Model/RawTables.lean `mergeOne` was written from", need)
+    shape(nd, "cxxNameDouble", "read_raw", ["parser", "pos"], 0, "read_raw does not read `name value` into the map",
+          r'(?P<tt>_tt\d+) = parser\.copy_token\((?P<s>_s\d+), pos\); if \((?P=tt) == CParser::TT_EMPTY\) \{ return CParser::PARSER_OK; \} '
+          r'if \(!\(parser\.get_iss\(\) >> (?P<x>_x\d+)\)\) \{ return CParser::PARSER_ERROR; \} \(\*this\)\[(?P=s)\.c_str\(\)\] = (?P=x); return CParser::PARSER_OK;$')
+    shape(nd, "cxxNameDouble", "merge_redox", ["source"], 0,
+          "body differs from the one Model/RawTables.lean `mergeOne` was written from",
+          r'^for \(cxxNameDouble::const_iterator (?P<sit>_it\d+) = source\.begin\(\); (?P=sit) != source\.end\(\); (?P=sit)\+\+\) \{ .*?'
+          r'(?P<r>_s\d+) = (?P=sit)->first; .*?(?P<n>_n\d+) = (?P=r)\.find\("\("\); .*?'
+          r'if \((?P=n) != std::string::npos\) \{ (?P<b>_b\d+) = true; (?P<e>_s\d+) = (?P=r)\.substr\(0, (?P=n)\); \} else \{ (?P=b) = false; (?P=e) = (?P=r); \} '
+          r'if \((?P=b)\) \{ if \(this->find\((?P=e)\) != this->end\(\)\) \{ this->erase\(this->find\((?P=e)\)\); \} \(\*this\)\[(?P=r)\] = (?P=sit)->second; \} '
+          r'else \{ std::string (?P<p>_s\d+); (?P=p)\.append\((?P=e)\); (?P=p)\.append\("\("\); bool (?P<d>_b\d+); (?P=d) = true; '
+          r'while \((?P=d)\) \{ (?P=d) = false; cxxNameDouble::iterator (?P<c>_it\d+); (?P=c) = this->begin\(\); for \(; (?P=c) != this->end\(\); (?P=c)\+\+\) \{ '
+          r'if \((?P=c)->first\.find\((?P=p)\) == 0\) \{ this->erase\((?P=c)\); (?P=d) = true; break; \} \} \} \(\*this\)\[(?P=e)\] = (?P=sit)->second; \} \}$',
+          hard=False)
     # find_option itself: case-folded prefix match, first hit wins
     ps = preprocess(strip_comments((base / "common" / "Parser.cxx").read_text(errors="replace")), "Parser.cxx")
-    body, _ = function_body(ps, "CParser", "find_option", "Parser.cxx find_option")
-    flat = " ".join(body.split())
-    for need in ("std::transform(token.begin(), token.end(), token.begin(), tolower)",
-                 "for (unsigned int i = 0; i < list.size(); i++)", "list[i].compare(token) == 0",
-                 "list[i].find(token) == 0", "*n = i; return FT_OK;", "*n = -1; return FT_ERROR;"):
-        if need not in flat:
-            fail("Parser.cxx", "find_option is no longer the case-folded first-prefix matcher", need)
+    shape(ps, "CParser", "find_option", ["item", "n", "list", "exact"], 0, "find_option is no longer the case-folded first-prefix matcher",
+          r'^std::string (?P<t>_s\d+); (?P=t) = item; std::transform\((?P=t)\.begin\(\), (?P=t)\.end\(\), (?P=t)\.begin\(\), tolower\); '
+          r'for \(unsigned int (?P<i>_n\d+) = 0; (?P=i) < list\.size\(\); (?P=i)\+\+\) \{ if \(exact == true\) \{ if \(list\[(?P=i)\]\.compare\((?P=t)\) == 0\) '
+          r'\{ \*n = (?P=i); return FT_OK; \} \} else \{ if \(list\[(?P=i)\]\.find\((?P=t)\) == 0\) \{ \*n = (?P=i); return FT_OK; \} \} \} \*n = -1; return FT_ERROR;$',
+          hard=False)
     for fn in ("get_option", "getOptionFromLastLine"):
-        for nth in (1,):        # the std::istream::pos_type overload is the one every read_raw uses
-            b, _ = function_body(ps, "CParser", fn, "Parser.cxx", nth)
-            if "std::istream::pos_type pos_ptr" not in b:
-                fail("Parser.cxx", f"second definition of {fn} is not the pos_type overload")
-            f2 = " ".join(b.split())
-            if not (re.search(r"find_option\(option(\.substr\(1\))?, &opt, opt_list, false\)", f2)
-                    and re.search(r"find_option\(option, &opt, opt_list, true\)", f2)):
-                fail("Parser.cxx", f"{fn} does not look options up with find_option (prefix for -options, exact otherwise)")
+        f2 = shape(ps, "CParser", fn, None, 1, f"{fn} does not look options up with find_option (prefix for -options, exact otherwise)",
+                   r'find_option\(_s\d+(\.substr\(1\))?, &_n\d+, opt_list, false\) == (CParser::)?FT_OK.*find_option\(_s\d+, &_n\d+, opt_list, true\) == (CParser::)?FT_OK')
+        if "std::istream::pos_type _pos" not in f2:
+            fail("Parser.cxx", f"second definition of {fn} is not the pos_type overload")
     return tables
 
 
@@ -1127,7 +1625,7 @@ class SerWalker:
         m = re.match(r"^(?:this->)?(\w+)\.size\(\)$", e)
         if m and m.group(1) in self.members:
             return m.group(1) + ".size"
-        if e in ("(*this).size()", "this->size()"):
+        if e == "this->size()":
             return "self.size"
         for lp in reversed(loops):
             v, c = lp["var"], lp["cont"]
@@ -1145,9 +1643,9 @@ class SerWalker:
                 self.ser(nd[1], loops, locs)
             elif nd[0] == "for":
                 h = norm_stmt(nd[1])
-                m = re.search(r"(\w+) = (?:this->|\(\*this\)\.)?(\w+)?\.?begin\(\); \1 != ", h) or re.match(r"^size_t (\w+) = 0; \1 < (?:this->)?(\w+)\.size\(\); \1\+\+$", h)
-                if "(*this).begin()" in h:
-                    var = re.search(r"(\w+) = \(\*this\)\.begin", h).group(1)
+                m = re.search(r"(_it\d+) = (?:this->)?(\w+)\.begin\(\); \1 != ", h) or re.match(r"^size_t (_n\d+) = 0; \1 < (?:this->)?(\w+)\.size\(\); \1\+\+$", h)
+                if re.search(r"(_it\d+) = this->begin\(\); \1 != this->end\(\)", h):
+                    var = re.search(r"(_it\d+) = this->begin", h).group(1)
                     cont = "self"
                 elif m and m.group(2) in self.members:
                     var, cont = m.group(1), m.group(2)
@@ -1169,7 +1667,7 @@ class SerWalker:
                         kind = "w" if t.startswith("@w:") else ("i" if m.group(1) == "ints" else "d")
                         self.ev.append([kind, t[3:] if t.startswith("@w:") else t])
                     continue
-                m = re.match(r"^int (\w+) = dictionary\.Find\((.*)\)$", st)
+                m = re.match(r"^(_n\d+) = dictionary\.Find\((.*)\)$", st)
                 if m:
                     locs = dict(locs)
                     locs[m.group(1)] = "@w:" + self.ser_target(m.group(2), loops, locs)
@@ -1183,7 +1681,8 @@ class SerWalker:
                     else:
                         self.ev.append(["nest", self.ser_target(tgt, loops, locs)])
                     continue
-                if re.match(r"^std::map\s*<[^;]*>::(const_)?iterator \w+$", st) or st == "return":
+                d_ = parse_decl(st)
+                if (d_ and all(how == "" for _, how, _ in d_[4])) or st == "return":
                     continue
                 fail(self.where, "Serialize: unrecognised statement", st)
             else:
@@ -1286,14 +1785,14 @@ class SerWalker:
             if m and m.group(2) in locs and m.group(1) in self.members:
                 locs[m.group(2)][1] = m.group(1) + ".elem"
                 return
-            m = re.match(r"^std::string (\w+) = dictionary\.GetWords\(\)\[(\w+)\]$", st)
+            m = re.match(r"^(_s\d+) = dictionary\.GetWords\(\)\[(\w+)\]$", st)
             if m and m.group(2) in locs:
                 locs[m.group(2)][0] = "w"
                 locs[m.group(1)] = locs[m.group(2)]
                 return
             if re.match(r"^(?:this->|\(\*this\)\.)?(\w+\.)?clear\(\)$", st) or re.match(r"^this->n_user_end = this->n_user$", st) \
                     or re.match(r'^this->description = " +"$', st) or re.match(r"^assert\(\w+ >= 0\)$", st) \
-                    or re.match(r"^cxx\w+ \w+(\(this->io\)|\(this->Get_io\(\)\))?$", st) or re.match(r"^std::string \w+\(\w+\.Get_name\(\)\)$", st) \
+                    or re.match(r"^cxx\w+ \w+(\(this->io\)|\(this->Get_io\(\)\))?$", st) or re.match(r"^_s\d+ = _o\d+\.Get_name\(\)$", st) \
                     or re.match(r"^(int|double|LDBLE|std::string) \w+$", st) or st == "return":
                 return
             fail(self.where, "Deserialize: unrecognised statement", st)
@@ -1302,7 +1801,7 @@ class SerWalker:
         if m and m.group(1) in self.members and n_reads == 1:
             self.new_read(m.group(2), cond)[1] = m.group(1) + ".elem"
             return
-        m = re.match(r"^(?:int|double|LDBLE|size_t|std::string) (\w+) = (.*)$", st) or (re.match(r"^(\w+) = (.*)$", st) if re.match(r"^(\w+) = ", st) and re.match(r"^(\w+) = ", st).group(1) in locs else None)
+        m = re.match(r"^(_(?:n|x|s)\d+) = (.*)$", st)
         if m and n_reads == 1:
             ev = self.new_read(m.group(2), cond)
             locs[m.group(1)] = ev
@@ -1328,12 +1827,12 @@ class SerWalker:
 
 
 def parse_serializer(tab, cls, src, members, where):
-    sb, sline = function_body(src, cls, "Serialize", where)
-    db, dline = function_body(src, cls, "Deserialize", where)
+    sn, sline, _ = fn_tree(src, cls, "Serialize", where, ["dictionary", "ints", "doubles"])
+    dn, dline, _ = fn_tree(src, cls, "Deserialize", where, ["dictionary", "ints", "doubles", "ii", "dd"])
     ws = SerWalker(members, where + " Serialize")
-    ws.ser(parse_block(sb, where), [], {})
+    ws.ser(sn, [], {})
     wd = SerWalker(members, where + " Deserialize")
-    wd.deser(parse_block(db, where), {})
+    wd.deser(dn, {})
     for k, t in wd.ev:
         if t in ("@", "?"):
             fail(where, "Deserialize: a popped value is never stored", str(wd.ev))
@@ -1488,7 +1987,7 @@ def emit(tables):
     o = ["/- GENERATED by tools/gen_raw.py from src/phreeqcpp/*.cxx — do not edit. -/",
          "import PhreeqcVerif.Model.RawTables", "namespace PhreeqcVerif.Gen.Raw", "open PhreeqcVerif.Raw", ""]
     for t in tables:
-        o.append(f"/-- {t['file']}: dump_raw line {t['dump_raw_line']}, read_raw line {t['read_raw_line']} -/")
+        o.append(f"/-- {t['file']}: {t['cls']}::dump_raw / read_raw / vopts -/")
         o.append(f"def tab{t['name']} : ClassTab where")
         o.append(f"  name := {ls(t['name'])}")
         o.append(f"  keyword := {ls(t['keyword'])}")
@@ -1531,7 +2030,7 @@ def generate(ctx=None):
         out.write_text(text)
     ser_defects = [(t["name"], "serialize_symmetric", next((f"{a} vs {b}" for a, b in zip(t["ser"], t["deser"]) if a != b), "length"))
                    for t in sers if t["ser"] != t["deser"]]
-    return dict(serializers=sers, ser_defects=ser_defects, tables=tables, defects=defects(tables), latent=latent(tables), classes=len(tables), written_keys=sum(len(t["written"]) for t in tables),
+    return dict(shape_notes=list(SHAPE_NOTES), serializers=sers, ser_defects=ser_defects, tables=tables, defects=defects(tables), latent=latent(tables), classes=len(tables), written_keys=sum(len(t["written"]) for t in tables),
                 options=sum(len(t["vopts"]) for t in tables), cases=sum(len(t["reader"]["cases"]) for t in tables),
                 sources=[f"{t['file']}:{t['dump_raw_line']},{t['read_raw_line']}" for t in tables])
 
